@@ -26,6 +26,7 @@ pub mod pegc {
     lit!(LAB, "ab");
     lit!(LE, "é");
     lit!(LC, "c");
+    lit!(LEB, "éb");
     #[derive(Clone, Debug, Hash, PartialEq, Eq)]
     pub struct NStar;
     impl StringArrayWrapper for NStar { const CONTENT: &'static [&'static str] = &["*/", "b"]; }
